@@ -348,7 +348,7 @@ def mkLoaded (f : File) : Loaded :=
 
 /-- judge:wf — does the loaded file meet the layout hypothesis of C01.marks_legal -/
 def judgeWf (f : File) : String :=
-  if wfFile f then "ok" else "skip wf:" ++ ",".intercalate (wfReasons f)
+  if wfFileFunc f then "ok" else "skip wf:" ++ ",".intercalate (wfReasons f)
 
 /-- judge:wflegal <gran> <ranges> — run-time cross-check of C01.marks_legal on the model's own
     answer: on a well-formed file every multi-line position is a statement boundary -/
@@ -356,7 +356,7 @@ def judgeWfLegal (f : File) (toks : List String) : String :=
   match (do let g ← pGran; let rs ← many pair; pure (g, rs) : P (Gran × List (Nat × Nat))).run toks with
   | .error e => s!"error parse {e.replace " " "_"}"
   | .ok ((g, rs), _) =>
-    if !wfFile f then "skip" else
+    if !(if g == .func then wfFileFunc f else wfFile f) then "skip" else
     match marks f g rs with
     | .error _ => "skip"
     | .ok m => if m.multi.all (legalLine f) then "ok" else "bad C01:theorem-marks_legal-contradicted"
